@@ -1,19 +1,18 @@
-"""Regenerate every Munge/Gen module (used by setup.sh)."""
-import sys
+"""Regenerate every Munge/Gen module (used by setup.sh): every tools/gen/g_*.py with generate(ctx)."""
+import glob, importlib, os, shutil, sys
 from ..vlib.core import Ctx
-from . import g_base64
-
-GENERATORS = [g_base64]
 
 def main():
-    ctx = Ctx("GEN", "quick", 1, __import__("os").environ.get("MUNGE_REPO", "/repo"))
+    ctx = Ctx("GEN", "quick", 1, os.environ.get("MUNGE_REPO", "/repo"))
     ok = True
-    for g in GENERATORS:
-        ok = g.generate(ctx) and ok
+    for f in sorted(glob.glob(os.path.join(os.path.dirname(__file__), "g_*.py"))):
+        mod = importlib.import_module("tools.gen." + os.path.basename(f)[:-3])
+        if hasattr(mod, "generate"):
+            ok = bool(mod.generate(ctx)) and ok
     bad = ctx.failed_obligations()
     for o in bad:
         print("generator failure:", o["name"], o["detail"][:500])
-    __import__("shutil").rmtree(ctx.work, ignore_errors=True)
+    shutil.rmtree(ctx.work, ignore_errors=True)
     sys.exit(0 if ok and not bad else 1)
 
 main()
